@@ -49,6 +49,50 @@ def run(ctx, repo):
     ctx.rule('R2', 'memo transparency: no cache store depends on a non-key parameter; hits return the stored value; eviction only removes')
     ctx.rule('R4', 'the eviction of _add_to_cache uses only operations that every cache passed to it supports')
     ctx.rule('R3', 'every $ref in json/** is "#..." or "file:///json/..." naming an existing file')
+    ctx.rule('R5', 'the report of a failed validation cannot fail itself: between the caught schema / validation error and `return False` '
+                   'only printing / formatting operations that accept any value are performed')
+    # ---- R5
+    SAFE = {'print', 'str', 'repr', 'format', 'len', 'type', 'isinstance', 'getattr'}
+    n_h = 0
+    for fname in ('schema_valid', 'valid_against_schema'):
+        if not mod.has_func(fname):
+            continue
+        f_ = mod.func(fname)
+        for h in [x for x in ast.walk(f_) if isinstance(x, ast.ExceptHandler)]:
+            if not any(isinstance(r, ast.Return) and isinstance(r.value, ast.Constant) and r.value.value is False for r in ast.walk(h)):
+                continue
+            n_h += 1
+            bad = []
+            for c in ast.walk(h):
+                if isinstance(c, ast.Call):
+                    nm = call_name(c)
+                    root = c.func
+                    while isinstance(root, ast.Attribute):
+                        root = root.value
+                    rooted = root.id if isinstance(root, ast.Name) else None
+                    if isinstance(c.func, ast.Name) and nm in SAFE:
+                        continue
+                    if rooted in ('logging', 'logger', 'log', 'warnings', 'sys'):
+                        continue
+                    if isinstance(c.func, ast.Attribute) and nm == 'format' and isinstance(c.func.value, ast.Constant):
+                        continue
+                    if isinstance(c.func, ast.Attribute) and nm == 'join' and isinstance(c.func.value, ast.Constant) and len(c.args) == 1 and isinstance(
+                            c.args[0], (ast.GeneratorExp, ast.ListComp)) and isinstance(c.args[0].elt, ast.Call) and call_name(c.args[0].elt) in ('str', 'repr'):
+                        continue
+                    bad.append(c)
+                if isinstance(c, ast.BinOp) and isinstance(c.op, ast.Mod) and isinstance(c.left, ast.Constant) and isinstance(c.left.value, str):
+                    import re as _re
+                    if [m for m in _re.findall(r'%[-+ #0-9.]*([a-zA-Z%])', c.left.value) if m not in 'sr%a']:
+                        bad.append(c)
+            if bad:
+                b = bad[0]
+                ctx.finding('R5', '%s::%s::the failure report can fail' % (UTILS, fname), UTILS, b.lineno,
+                            '%s: while reporting a failed validation (the path that returns False) `%s` is evaluated; it can raise for some '
+                            'error objects (a path with array indices, a missing attribute), and the call then ends in that error instead of False'
+                            % (fname, unparse(b)[:80]), 'an invalid document whose error sits inside an array, expect_failure=False')
+            else:
+                ctx.ok('R5', '%s: the failure report only prints' % fname)
+    ctx.floor('failure handlers that return False', n_h, 2)
     muts = module_mutables(mod)
     caches = set()
     n_store = 0
